@@ -1,5 +1,11 @@
 package gen
 
+import (
+	"fmt"
+
+	"github.com/gogo/protobuf/proto"
+)
+
 // Types for C17 (type renames). The "same" error type under its successive
 // names: Foo (original), Bar and Qux (two alternative renames of Foo), Baz
 // (rename of Bar), Zed (rename of Baz); each in three forms: leaf by value,
@@ -210,3 +216,56 @@ func MigNewP(name int, msg string, code int) error {
 type MovedLeaf struct{ Msg string }
 
 func (e MovedLeaf) Error() string { return e.Msg }
+
+// BarProto is an error type that is itself a protobuf message (hand-written
+// gogo message: field 1 = Msg). It stands for a type renamed from
+// "*gen.FooProto"; such types travel as their own payload and need no decoder.
+type BarProto struct{ Msg string }
+
+func (m *BarProto) Reset()         { *m = BarProto{} }
+func (m *BarProto) String() string { return "BarProto{" + m.Msg + "}" }
+func (*BarProto) ProtoMessage()    {}
+func (m *BarProto) Error() string  { return m.Msg }
+
+// Marshal implements proto.Marshaler.
+func (m *BarProto) Marshal() ([]byte, error) {
+	if m.Msg == "" {
+		return nil, nil
+	}
+	out := []byte{0x0a}
+	n := uint64(len(m.Msg))
+	for n >= 0x80 {
+		out = append(out, byte(n)|0x80)
+		n >>= 7
+	}
+	out = append(out, byte(n))
+	return append(out, m.Msg...), nil
+}
+
+// Unmarshal implements proto.Unmarshaler.
+func (m *BarProto) Unmarshal(b []byte) error {
+	m.Msg = ""
+	if len(b) == 0 {
+		return nil
+	}
+	if b[0] != 0x0a {
+		return fmt.Errorf("BarProto: unexpected tag %x", b[0])
+	}
+	var n uint64
+	i, shift := 1, uint(0)
+	for ; i < len(b); i++ {
+		n |= uint64(b[i]&0x7f) << shift
+		shift += 7
+		if b[i] < 0x80 {
+			i++
+			break
+		}
+	}
+	if uint64(len(b)-i) < n {
+		return fmt.Errorf("BarProto: truncated")
+	}
+	m.Msg = string(b[i : i+int(n)])
+	return nil
+}
+
+func init() { proto.RegisterType((*BarProto)(nil), "errsim.BarProto") }
